@@ -93,3 +93,13 @@ func TestC20Enum(t *testing.T) {
 	}
 	C20IP4.RunJobs(t, descs, jobs)
 }
+
+func TestC17Enum(t *testing.T) {
+	allCuts := envInt("VERIF_DEPTH", 0) > 0
+	what := "one-shot and one cut in the middle"
+	if allCuts {
+		what = "every two-step cut"
+	}
+	C17List.RunShards(t, "every list spec of 0..2 items (two names / empty item x no, empty, token, quoted value x a blank in each of the four whitespace slots; three whitespace kinds for one item) and 3 items without whitespace, x 6 option-flag sets x every terminator they define x entry points, "+what,
+		true, 32, func(s int, emit func(CaseTokList) bool) { enumTokSpecs(allCuts, s, 32, emit) })
+}
